@@ -59,7 +59,7 @@ Inductive eqkey := EKNone | EKCmp (f : sym) (same_type : bool).
 
 Record attrib_args := {
   aa_default : bool; aa_v : seqarg; aa_c : seqarg; aa_h : hookarg;
-  aa_kw : bool; aa_init : bool; aa_m : metaarg; aa_eqk : eqkey }.
+  aa_kw : bool; aa_init : bool; aa_m : metaarg; aa_eqk : eqkey; aa_type : option ty }.
 
 (** The dict object a [_CountingAttr] holds in [.metadata]: one nobody else has
     ([{}] default or a literal) or the caller's. *)
@@ -74,7 +74,8 @@ Record counting_attr := {
   ca_hook : on_setattr;
   ca_kw : bool; ca_init : bool;
   ca_meta : metaref;
-  ca_eqk : eqkey }.
+  ca_eqk : eqkey;
+  ca_type : option ty }.       (* type= *)
 
 (** What an [Attribute] holds as metadata: a copy of the content, or (only in the
     buggy variant) the caller's dict itself. *)
@@ -83,12 +84,15 @@ Inductive metaval := MVCopy (ks : list string) | MVAlias (id : nat).
 Record fattr := {
   fa_name : string; fa_default : bool; fa_vals : list sym; fa_convs : list sym;
   fa_cann : option ty; fa_type : option ty;
+  fa_hint : bool;              (* the name is among typing.get_type_hints(cls) *)
   fa_hook : on_setattr; fa_kw : bool; fa_init : bool; fa_meta : metaval; fa_inh : bool;
   fa_eqk : eqkey }.
 
 (** ** Decorator objects *)
 
-Inductive dval := DCa (id : nat) | DFn.          (* value in a caller dict: attr.ib object / function *)
+(** A value in a caller dict: an attr.ib object, a function, or (under the key
+    "__annotations__" of a class_body) a NESTED dict of annotations the caller owns too. *)
+Inductive dval := DCa (id : nat) | DFn | DAnns (l : list (string * ty)).
 Definition pydict := list (string * dval).
 
 (** [these] as seen by [attrs.wrap]: the caller's dict object, or the private copy
@@ -250,7 +254,7 @@ Fixpoint set_nth {A : Type} (n : nat) (x : A) (l : list A) : list A :=
 Definition dummy_ca : counting_attr :=
   {| ca_counter := 0; ca_default := false; ca_vals := []; ca_convs := []; ca_cann := None;
      ca_hook := OsNone;
-     ca_kw := false; ca_init := true; ca_meta := MOwn []; ca_eqk := EKNone |}.
+     ca_kw := false; ca_init := true; ca_meta := MOwn []; ca_eqk := EKNone; ca_type := None |}.
 
 (** ** [attrib()] *)
 
@@ -318,13 +322,14 @@ Definition attrib (w : world) (a : attrib_args) : world * counting_attr :=
       ca_cann := converter_ann w (aa_c a);
       ca_hook := resolve_hook w (aa_h a);
       ca_kw := aa_kw a; ca_init := aa_init a; ca_meta := resolve_meta (aa_m a);
-      ca_eqk := aa_eqk a |}).
+      ca_eqk := aa_eqk a; ca_type := aa_type a |}).
 
 (** [_CountingAttr.validator(meth)]: a NEW and_ object replaces the old one. *)
 Definition ca_add_validator (c : counting_attr) (s : sym) : counting_attr :=
   {| ca_counter := ca_counter c; ca_default := ca_default c; ca_vals := ca_vals c ++ [s];
      ca_convs := ca_convs c; ca_cann := ca_cann c; ca_hook := ca_hook c; ca_kw := ca_kw c;
-     ca_init := ca_init c; ca_meta := ca_meta c; ca_eqk := ca_eqk c |}.
+     ca_init := ca_init c; ca_meta := ca_meta c; ca_eqk := ca_eqk c;
+     ca_type := ca_type c |}.
 
 (** ** Executing a class statement *)
 
@@ -376,19 +381,23 @@ Definition meta_copy (w : world) (m : metaref) : metaval :=
 Definition from_counting_attr (mc : world -> metaref -> metaval) (w : world)
   (tys : list (string * ty)) (name : string) (c : counting_attr) : fattr :=
   {| fa_name := name; fa_default := ca_default c; fa_vals := ca_vals c; fa_convs := ca_convs c;
-     fa_cann := ca_cann c; fa_type := lookup_ty name tys;   (* anns.get(attr_name) *)
+     fa_cann := ca_cann c;
+     (* type = anns.get(attr_name); if type is None: type = ca.type *)
+     fa_type := match lookup_ty name tys with Some t => Some t | None => ca_type c end;
+     fa_hint := match lookup_ty name tys with Some _ => true | None => false end;
      fa_hook := ca_hook c; fa_kw := ca_kw c; fa_init := ca_init c;
      fa_meta := mc w (ca_meta c); fa_inh := false; fa_eqk := ca_eqk c |}.
 
 Definition evolve_kw (a : fattr) : fattr :=
   {| fa_name := fa_name a; fa_default := fa_default a; fa_vals := fa_vals a;
-     fa_convs := fa_convs a; fa_cann := fa_cann a; fa_type := fa_type a;
+     fa_convs := fa_convs a; fa_cann := fa_cann a; fa_type := fa_type a; fa_hint := fa_hint a;
      fa_hook := fa_hook a; fa_kw := true; fa_init := fa_init a;
      fa_meta := fa_meta a; fa_inh := fa_inh a; fa_eqk := fa_eqk a |}.
 (** A base field as collected by [_collect_base_attrs]: [a.evolve(inherited=True)]. *)
 Definition evolve_inh (a : battr) : fattr :=
   {| fa_name := ba_name a; fa_default := ba_default a; fa_vals := ba_vals a;
-     fa_convs := ba_convs a; fa_cann := ba_cann a; fa_type := ba_type a; fa_hook := ba_hook a; fa_kw := ba_kw a; fa_init := ba_init a;
+     fa_convs := ba_convs a; fa_cann := ba_cann a; fa_type := ba_type a;
+     fa_hint := match ba_type a with Some _ => true | None => false end; fa_hook := ba_hook a; fa_kw := ba_kw a; fa_init := ba_init a;
      fa_meta := MVCopy (ba_meta a); fa_inh := true; fa_eqk := EKNone |}.
 
 (** Stable insertion sort by counter: [sorted(..., key=lambda e: e[1].counter)]. *)
@@ -431,7 +440,7 @@ Fixpoint walk_anns (w : world) (cd : list (string * cdval)) (anns : list (string
             let '(w1, c) := attrib w {| aa_default := match other with Some _ => true | None => false end;
                                         aa_v := SNone; aa_c := SNone; aa_h := HANone;
                                         aa_kw := false; aa_init := true; aa_m := MANone;
-                                        aa_eqk := EKNone |} in
+                                        aa_eqk := EKNone; aa_type := None |} in
             let '(w2, l) := walk_anns w1 cd r in (w2, (n, c) :: l)
         end
   end.
@@ -454,13 +463,45 @@ Fixpoint order_ok (had_default : bool) (l : list fattr) : bool :=
 Definition these_items (w : world) (d : pydict) : list (string * counting_attr) :=
   flat_map (fun e => match snd e with
                      | DCa id => [(fst e, nth id (w_cas w) dummy_ca)]
-                     | DFn => []
+                     | _ => []
                      end) d.
 Definition has_fn (d : pydict) : bool :=
-  existsb (fun e => match snd e with DFn => true | _ => false end) d.
+  existsb (fun e => match snd e with DCa _ => false | _ => true end) d.
 
 Definition deref_these (w : world) (t : theseref) : pydict :=
   match t with TRef id => nth id (w_dicts w) [] | TVal d => d end.
+
+(** [fca(name, ca, anns.get(name)) for name, ca in these.items()]: a value that is not
+    a counting attr fails with AttributeError, an annotated name whose counting attr
+    has [type=] with ValueError — whichever comes first. *)
+Fixpoint these_first_err (w : world) (tys : list (string * ty)) (d : pydict) : option dexc :=
+  match d with
+  | [] => None
+  | (n, DCa id) :: r =>
+      match lookup_ty n tys, ca_type (nth id (w_cas w) dummy_ca) with
+      | Some _, Some _ => Some EValueError
+      | _, _ => these_first_err w tys r
+      end
+  | _ :: _ => Some EOther
+  end.
+
+(** The rest of [_transform_attrs] once the (name, counting attr) list is known. *)
+Definition finish_attrs (mc : world -> metaref -> metaval) (w1 : world) (tys : list (string * ty))
+  (kw_only : bool) (base_attrs : list battr) (ca_list : list (string * counting_attr))
+  : dres (list fattr) :=
+  (* from_counting_attr: "Type annotation and type argument cannot both be present" *)
+  if existsb (fun e => match lookup_ty (fst e) tys, ca_type (snd e) with
+                       | Some _, Some _ => true | _, _ => false end) ca_list
+  then DErr EValueError else
+  let own := map (fun e => from_counting_attr mc w1 tys (fst e) (snd e)) ca_list in
+  let taken := map fa_name own in
+  let base := map evolve_inh
+                  (filter (fun a => negb (mem_str (ba_name a) taken)) base_attrs) in
+  (* if kw_only: NEW Attributes are made (a.evolve); the counting attrs stay *)
+  let own := if kw_only then map evolve_kw own else own in
+  let base := if kw_only then map evolve_kw base else base in
+  let attrs := base ++ own in
+  if order_ok false attrs then DOk attrs else DErr EValueError.
 
 Definition transform_attrs (mc : world -> metaref -> metaval) (w : world)
   (these : option theseref) (auto_attribs kw_only : bool) (cls : class_obj)
@@ -471,8 +512,11 @@ Definition transform_attrs (mc : world -> metaref -> metaval) (w : world)
     match these with
     | Some t =>
         let d := deref_these w t in
-        (* a function among the values: from_counting_attr fails on it *)
-        if has_fn d then (w, DErr EOther) else (w, DOk (these_items w d))
+        (* from_counting_attr item by item, in dict order: the first offender decides *)
+        match these_first_err w (co_tys cls) d with
+        | Some e => (w, DErr e)
+        | None => (w, DOk (these_items w d))
+        end
     | None =>
         if auto_attribs then
           let '(w1, l) := walk_anns w cd anns in
@@ -487,15 +531,7 @@ Definition transform_attrs (mc : world -> metaref -> metaval) (w : world)
   match ca_list with
   | DErr e => (w1, DErr e)
   | DOk ca_list =>
-      let own := map (fun e => from_counting_attr mc w1 (co_tys cls) (fst e) (snd e)) ca_list in
-      let taken := map fa_name own in
-      let base := map evolve_inh
-                      (filter (fun a => negb (mem_str (ba_name a) taken)) (bi_attrs (co_base cls))) in
-      (* if kw_only: NEW Attributes are made (a.evolve); the counting attrs stay *)
-      let own := if kw_only then map evolve_kw own else own in
-      let base := if kw_only then map evolve_kw base else base in
-      let attrs := base ++ own in
-      if order_ok false attrs then (w1, DOk attrs) else (w1, DErr EValueError)
+      (w1, finish_attrs mc w1 (co_tys cls) kw_only (bi_attrs (co_base cls)) ca_list)
   end.
 
 (** ** [_ClassBuilder] decisions *)
@@ -711,7 +747,53 @@ Definition dict_has (n : string) (d : pydict) : bool := existsb (fun e => String
 
 Record mc_args := { mk_attrs : nat; mk_body : option nat; mk_args : attrs_args; mk_base : base_info }.
 
-Definition make_class_gen (pop_from_caller : bool) (w : world) (m : mc_args)
+(** The nested annotations dict of a class_body (the class made by [types.new_class]
+    gets this very dict object as its [__annotations__]). *)
+Fixpoint body_anns (body : pydict) : list (string * ty) :=
+  match body with
+  | [] => []
+  | (k, DAnns l) :: r => if String.eqb k "__annotations__" then l else body_anns r
+  | _ :: r => body_anns r
+  end.
+
+(** [{k: v.type for k, v in cls_dict.items() if v.type is not None}] *)
+Definition typed_fields (w : world) (cls_dict : pydict) : list (string * ty) :=
+  flat_map (fun e => match snd e with
+                     | DCa id => match ca_type (nth id (w_cas w) dummy_ca) with
+                                 | Some t => [(fst e, t)] | None => [] end
+                     | _ => []
+                     end) cls_dict.
+
+(** [d.update(typed)] on the nested dict (only the code variant with [.update] does this). *)
+Definition upd_body (body : pydict) (typed : list (string * ty)) : pydict :=
+  map (fun e => match snd e with
+                | DAnns l =>
+                    if String.eqb (fst e) "__annotations__"
+                    then (fst e, DAnns (filter (fun x => negb (mem_str (fst x) (map fst typed))) l ++ typed))
+                    else e
+                | _ => e
+                end) body.
+
+(** [ann_update] selects a variant whose last statement is
+    [cls.__annotations__.update(...)] instead of the rebinding [cls.__annotations__ = ...]. *)
+(** After [cls.__annotations__ = {k: v.type ...}] the hinted names of the class itself
+    are exactly the fields with [type=]. *)
+Definition set_hint (typed : list string) (a : fattr) : fattr :=
+  {| fa_name := fa_name a; fa_default := fa_default a; fa_vals := fa_vals a;
+     fa_convs := fa_convs a; fa_cann := fa_cann a; fa_type := fa_type a;
+     fa_hint := if fa_inh a then fa_hint a else mem_str (fa_name a) typed;
+     fa_hook := fa_hook a; fa_kw := fa_kw a; fa_init := fa_init a;
+     fa_meta := fa_meta a; fa_inh := fa_inh a; fa_eqk := fa_eqk a |}.
+Definition rebind_annotations (typed : list string) (o : cls_outcome) : cls_outcome :=
+  match o with
+  | Built r =>
+      Built {| r_fields := map (set_hint typed) (r_fields r); r_hash := r_hash r; r_eq := r_eq r;
+               r_setattr := r_setattr r; r_init := r_init r; r_init_ann := r_init_ann r;
+               r_pre := r_pre r; r_post := r_post r; r_slots := r_slots r; r_cf := r_cf r |}
+  | Raised e => Raised e
+  end.
+
+Definition make_class_gen (pop_from_caller ann_update : bool) (w : world) (m : mc_args)
   : world * cls_outcome :=
   (* cls_dict = dict(attrs) *)
   let cls_dict := nth (mk_attrs m) (w_dicts w) [] in
@@ -722,7 +804,7 @@ Definition make_class_gen (pop_from_caller : bool) (w : world) (m : mc_args)
   (* body = {}; body.update(class_body); body[...] = popped hooks *)
   let body := match mk_body m with Some id => nth id (w_dicts w) [] | None => [] end in
   let cls :=
-    {| co_cd := []; co_anns := []; co_tys := [];
+    {| co_cd := []; co_anns := []; co_tys := body_anns body;
        co_f := {| cf_hash := dict_has "__hash__" body; cf_eq := dict_has "__eq__" body;
                   cf_setattr := dict_has "__setattr__" body;
                   cf_init := dict_has "__init__" body || user_init;
@@ -743,10 +825,20 @@ Definition make_class_gen (pop_from_caller : bool) (w : world) (m : mc_args)
              ar_auto_detect := ar_auto_detect a; ar_collect_by_mro := ar_collect_by_mro a;
              ar_on_setattr := ar_on_setattr a |} with
   | DErr e => (w, Raised e)
-  | DOk c => let '(_, w1, o) := attrs_wrap w c cls in (w1, o)
+  | DOk c =>
+      let '(_, w1, o) := attrs_wrap w c cls in
+      (* cls.__annotations__ = {...}: a NEW dict is bound; the caller's nested dict stays *)
+      let w2 :=
+        match ann_update, o, mk_body m with
+        | true, Built _, Some id =>
+            set_dicts w1 (set_nth id (upd_body (nth id (w_dicts w1) []) (typed_fields w1 cls_dict))
+                                  (w_dicts w1))
+        | _, _, _ => w1
+        end in
+      (w2, rebind_annotations (map fst (typed_fields w1 cls_dict)) o)
   end.
 
-Definition make_class := make_class_gen false.
+Definition make_class := make_class_gen false false.
 
 (** ** Histories *)
 
@@ -760,7 +852,10 @@ Inductive class_op := CResolve | CPure.
 Definition resolve_ty (t : ty) : ty := match t with TStr n => TObj n | TObj n => TObj n end.
 Definition resolve_fattr (a : fattr) : fattr :=
   {| fa_name := fa_name a; fa_default := fa_default a; fa_vals := fa_vals a;
-     fa_convs := fa_convs a; fa_cann := fa_cann a; fa_type := option_map resolve_ty (fa_type a);
+     fa_convs := fa_convs a; fa_cann := fa_cann a;
+     (* for field in fields(cls): if field.name in hints: field.type = hints[field.name] *)
+     fa_type := if fa_hint a then option_map resolve_ty (fa_type a) else fa_type a;
+     fa_hint := fa_hint a;
      fa_hook := fa_hook a; fa_kw := fa_kw a; fa_init := fa_init a;
      fa_meta := fa_meta a; fa_inh := fa_inh a; fa_eqk := fa_eqk a |}.
 Definition cop_outcome (c : class_op) (o : cls_outcome) : cls_outcome :=
@@ -986,7 +1081,8 @@ Definition fingerprints (w : world) : list fprint := map (observe w) (w_defs w).
 
 Definition attrs_wrap_buggy := attrs_wrap_gen true meta_copy.
 Definition define_wrap_buggy := define_wrap_gen true.
-Definition make_class_buggy := make_class_gen true.
+Definition make_class_buggy := make_class_gen true false.
+Definition make_class_ann_update := make_class_gen false true.
 Definition meta_alias (w : world) (m : metaref) : metaval :=
   match m with MOwn ks => MVCopy ks | MRef id _ => MVAlias id end.
 
